@@ -206,6 +206,7 @@ type tokenizer struct {
 	bind  map[ssa.Value]int64
 	preds map[string]int64 // valuation of pure predicates
 	errIx int
+	depth int // helper inlining depth
 }
 
 func (tk *tokenizer) run() ([]wirePath, bool) {
@@ -276,6 +277,24 @@ func (tk *tokenizer) run() ([]wirePath, bool) {
 			if name == "reflect.Value.Call" && tk.side == decSide {
 				add(st, wireTok{Kind: "Dyn(dyn:EndpointType)"})
 				return
+			}
+			// a small helper of the repository that is handed this codec's stream (e.g. checkCRCField): its own,
+			// single success grammar is spliced in
+			if cal := cc.StaticCallee(); cal != nil && core.IsRepo(cal) && cal.Blocks != nil && tk.p != nil && par != nil && cal != tk.fn && tk.depth < 2 {
+				if hp := ioParam(cal, tk.side); hp != nil {
+					for i, a := range cc.Args {
+						if i < len(cal.Params) && cal.Params[i] == hp && streamIs(a, par, st, 0) {
+							if sub, ok := grammarOfDepth(tk.p, cal, tk.side, tk.depth+1); ok && len(sub) == 1 {
+								for _, t := range sub[0].Toks {
+									add(st, wireTok{Kind: t.Kind})
+								}
+							} else {
+								add(st, wireTok{Kind: "Helper(" + cal.Name() + ":?)"})
+							}
+							return
+						}
+					}
+				}
 			}
 			if !strings.HasPrefix(name, cbor+".") && name != "pkg/bpv7.ExtensionBlockManager.WriteBlock" && name != "pkg/bpv7.ExtensionBlockManager.ReadBlock" &&
 				name != "encoding/binary.Write" && name != "encoding/binary.Read" && name != "io.ReadFull" && name != "io.WriteString" {
@@ -547,6 +566,10 @@ func firstLengthRead(fn *ssa.Function) ssa.Value {
 // valuations of the pure predicates it consults and, for decoders, over all
 // candidate values 0..16 of the first array length.
 func grammarOf(p *core.Program, fn *ssa.Function, side wireSide) ([]wirePath, bool) {
+	return grammarOfDepth(p, fn, side, 0)
+}
+
+func grammarOfDepth(p *core.Program, fn *ssa.Function, side wireSide, depth int) ([]wirePath, bool) {
 	var usedPreds []string
 	for _, name := range purePredicates {
 		if len(core.CallsToDeep(fn, name)) > 0 {
@@ -577,7 +600,7 @@ func grammarOf(p *core.Program, fn *ssa.Function, side wireSide) ([]wirePath, bo
 			binds = []map[ssa.Value]int64{{}}
 		}
 		for _, b := range binds {
-			tk := &tokenizer{p: p, fn: fn, side: side, bind: b, preds: preds}
+			tk := &tokenizer{p: p, fn: fn, side: side, bind: b, preds: preds, depth: depth}
 			paths, ok := tk.run()
 			if !ok {
 				return nil, false
